@@ -34,13 +34,23 @@ def run(tier, seed):
     lib.write_ndjson(ep, edges)
     # ---- layer 1: API edges on every parameter set
     n = 0
+    paths_total = 0
     for pi, p in enumerate(params):
         op = os.path.join(lib.outdir(PID), f"edges_obs_{pi}.ndjson")
         rc, out = lib.harness(["hs-edges", ep, op, json.dumps(p)])
         stats = json.loads(out.strip().splitlines()[-1])
         if stats["reached"] != stats["states"]:
             raise lib.ToolError("edge replay did not reach every model state")
-        for o in lib.read_ndjson(op):
+        obs_all = lib.read_ndjson(op)
+        # every call sequence up to 4 (thorough: 5) calls, not only one access path per model state: steps whose
+        # observation differs from the access-path observation of the same model edge are judged as well
+        pp_ = os.path.join(lib.outdir(PID), f"paths_obs_{pi}.ndjson")
+        rc, out = lib.harness(["hs-paths", ep, pp_, json.dumps(p), "5" if thorough or pi == 0 else "4"])
+        paths_total += json.loads(out.strip().splitlines()[-1])["paths"]
+        diff = lib.read_ndjson(pp_)
+        for o in diff:
+            v.add_drift("the handshake state machine's observable behaviour depends on the call path to a model state", {"calls_before": o["path"], "call": o["act"]})
+        for o in obs_all + diff:
             n += 1
             act, exp, got = o["act"], o["retA"], o["obs_ret"]
             v.case(json.dumps([pi, o["model_from"], act]))
@@ -72,6 +82,7 @@ def run(tier, seed):
             if (exp["ret"] == "err") != (got["ret"] == "err") and act["class"] not in ("good_extra_bytes", "right_extra_bytes"):
                 v.add_drift(f"call result {got['ret']} vs model {exp['ret']}", case)
     v.cov["traces_validated_against_impl"] = n
+    v.cov["call_paths_walked_on_impl"] = paths_total
     # ---- layer 2: scripted peer over TCP
     use_params = params if thorough else params[:2]
     pp2 = os.path.join(lib.outdir(PID), "params_used.ndjson")
